@@ -252,11 +252,9 @@ impl<H: DnsHandle> DnssecDnsHandle<H> {
             .authorities
             .iter()
             .filter_map(|rr| {
-                if message
-                    .authorities
-                    .iter()
-                    .any(|r| r.name == rr.name && r.proof == Proof::Secure)
-                {
+                // only NSEC/NSEC3 records that were authenticated themselves (a Secure record of
+                // another type at the same owner, e.g. the SOA at the apex, proves nothing)
+                if rr.proof == Proof::Secure {
                     match &rr.data {
                         RData::DNSSEC(DNSSECRData::NSEC3(nsec3)) => Some((&rr.name, nsec3)),
                         _ => None,
@@ -271,11 +269,9 @@ impl<H: DnsHandle> DnssecDnsHandle<H> {
             .authorities
             .iter()
             .filter_map(|rr| {
-                if message
-                    .authorities
-                    .iter()
-                    .any(|r| r.name == rr.name && r.proof == Proof::Secure)
-                {
+                // only NSEC/NSEC3 records that were authenticated themselves (a Secure record of
+                // another type at the same owner, e.g. the SOA at the apex, proves nothing)
+                if rr.proof == Proof::Secure {
                     match &rr.data {
                         RData::DNSSEC(DNSSECRData::NSEC(nsec)) => Some((&rr.name, nsec)),
                         _ => None,
